@@ -211,7 +211,7 @@ Definition oracle_step (cf : cfg) (tr : trace) (owner : option N) (eaves : list 
   | ESend c m =>
       match o with
       | (r, OFwd f m') :: copies =>
-          if negb ((f =? c) && (m_token m' =? m_token m)) then 2
+          if negb ((f =? c) && (m_token m' =? m_token m)) || unknown_type m then 2      (* unknown message types are never passed on *)
           else if negb (forallb (fun x => match snd x with OEav f' m'' => (f' =? c) && (m_token m'' =? m_token m) | _ => false end) copies) then 2
           else if existsb (fun x => fst x =? r) copies || has_dup (map fst copies) then 2      (* somebody got it twice *)
           else if negb (forallb (fun x => existsb (N.eqb (fst x)) eaves) copies) then 3       (* copy to a connection not entitled to eavesdrop *)
@@ -228,7 +228,7 @@ Definition oracle_step (cf : cfg) (tr : trace) (owner : option N) (eaves : list 
       | [(r, OErr x rs)] =>
           if negb ((r =? c) && (rs =? m_serial m)) then 2
           else match owner with
-               | None => if holdok then (if err_eqb x EAccessDenied && negb (can_send cf m false) then 0 else 7)   (* first-pass policy check of the activation *)
+               | None => if holdok then (if err_eqb x EAccessDenied && (negb (can_send cf m false) || unknown_type m) then 0 else 7)   (* first-pass policy check of the activation *)
                          else if err_eqb x (if m_noauto m then ENameHasNoOwner else EServiceUnknown) then 0 else 7
                | Some w =>
                    let wants_slot := is_call m && negb (m_noreply m) in
@@ -236,13 +236,14 @@ Definition oracle_step (cf : cfg) (tr : trace) (owner : option N) (eaves : list 
                    let others := length (filter (fun k => let '(a, _, _) := k in a =? c)
                                                 (filter (fun k => negb (key_eqb k (c, w, m_serial m)) && negb (key_eqb k (w, c, m_rserial m))) (open_keys T tr))) in
                    if err_eqb x ENoReply then 4
+                   else if unknown_type m then (if err_eqb x EAccessDenied || (err_eqb x ENotSupported && (0 <? m_nfds m)) then 0 else 8)
                    else if unrequested then (if err_eqb x EAccessDenied || (err_eqb x ENotSupported && (0 <? m_nfds m)) then 0 else 5)
                    else if err_eqb x ENotSupported then (if 0 <? m_nfds m then 0 else 8)
                    else if err_eqb x EAccessDenied then (if wants_slot && is_open T tr c w (m_serial m) then 0 else 8)
                    else if err_eqb x ELimitsExceeded then (if full || wants_slot && (max_replies cf <=? N.of_nat others) then 0 else 8)
                    else 8
                end
-      | [] => if holdok && can_send cf m false then 0 else 2
+      | [] => if holdok && can_send cf m false && negb (unknown_type m) then 0 else 2
       | _ => 2
       end
   | ERequestName c sr _ _ _ _ =>
